@@ -261,8 +261,16 @@ def run(tier, seed, replay=None):
             doc, settings, info = build(r, kind)
             for variant, st in (("base", {}), ("var", settings)):
                 cid = "c%03d_%s_%s" % (i, kind, variant)
-                cases.append({"id": cid, "settings": st, "history": [{"op": "root", "schema": doc}],
-                              "opts": {"has_impl": False}})
+                hist = [{"op": "root", "schema": doc}]
+                if kind == "replace" and variant == "var" and i % 2:
+                    # the replaced definition arrives again in a second batch (two documents sharing a hand-written
+                    # type): the replacement has to hold there as well
+                    tn = info["target"]
+                    hist.append({"op": "refs", "defs": [[tn, doc["definitions"][tn]],
+                                                        ["SecondUser", {"type": "object", "required": ["value"],
+                                                                        "properties": {"value": {"$ref": "#/definitions/" + tn},
+                                                                                       "many": {"type": "array", "items": {"$ref": "#/definitions/" + tn}}}}]]})
+                cases.append({"id": cid, "settings": st, "history": hist, "opts": {"has_impl": False}})
                 meta[cid] = {"doc": doc, "settings": st, "info": info, "variant": variant, "pair": "c%03d_%s" % (i, kind)}
     if replay:
         data = json.load(open(replay))
